@@ -584,10 +584,10 @@ class RealConverter(Converter):
         try: val = float(val)
         except ValueError:
             throw(TypeError, 'Invalid value for attribute %s: %r' % (converter.attr, val))
-        if converter.min_val is not None and val < converter.min_val:
+        if converter.min_val is not None and not val >= converter.min_val:
             throw(ValueError, 'Value %r of attr %s is less than the minimum allowed value %r'
                              % (val, converter.attr, converter.min_val))
-        if converter.max_val is not None and val > converter.max_val:
+        if converter.max_val is not None and not val <= converter.max_val:
             throw(ValueError, 'Value %r of attr %s is greater than the maximum allowed value %r'
                              % (val, converter.attr, converter.max_val))
         return val
